@@ -874,23 +874,9 @@ def gen_l1_case(rng, voc, malformed=0.2):
 
 # the defects of the unchanged tree found while building C10/C11 (see the report); each is a genuine violation of
 # the statement, recognised by its exact effect and routed through ctx.report_failure under its key:
-PENDING_FINDINGS = [
-    {'key': 'site:GtkDocAnnotatable.validate:annotations.position is None',
-     'what': 'validate() diagnostics (unknown/unexpected annotation, option count, ...) carry no file/line at all '
-             'when the part\'s annotations were continued on a further line (OrderedDict.copy() in _parse_annotations '
-             'builds GtkDocAnnotations without position) or were created by a deprecated tag-style annotation '
-             '(default GtkDocAnnotations() of the block)'},
-    {'key': 'site:parse_comment_block:text before the closing token is re-parsed from the trimmed text',
-     'what': 'when comment text precedes the closing token on the last line, parse_comment_block replaces that line by '
-             'the trimmed text (COMMENT_BLOCK_END_RE group "comment": leading white space and the token removed) and '
-             'every later diagnostic for it quotes the trimmed text with a caret column relative to it, not the '
-             'source line'},
-]
-KEY_NO_POSITION = PENDING_FINDINGS[0]['key']
-KEY_END_TEXT = PENDING_FINDINGS[1]['key']
-# repaired in /repo (065a201, 902d172, a1e3aaa) and no longer suppressed: len(None) for (copy-func)/(free-func)
-# without option, empty option values written as bare keys, action identifiers and symbols named ACTION... /
-# SECTION... written in a form the parser does not read back.  Their inputs stay in corpus/ as regressions.
+# every defect found while building C10/C11 has been repaired in /repo (065a201, 902d172, a1e3aaa, b545356, 4fa4c2f);
+# their inputs are regressions in corpus/ and nothing is suppressed any more
+PENDING_FINDINGS = []
 
 
 def install_pending(ctx):
